@@ -97,7 +97,7 @@ func TestC12_P_FileFaults(t *testing.T) {
 			if err == nil || err == io.EOF {
 				t.Fatalf("C12 [%s] %s via %s: read ended with err=%v after %d bytes (file has %d): missing block was swallowed", fc.Desc, desc, mode, err, len(got), len(fc.Data))
 			}
-			if !isInjected(err) {
+			if fc.St.MissingBare == nil && !isInjected(err) {
 				t.Fatalf("C12 [%s] %s via %s: error %q does not carry the injected load error", fc.Desc, desc, mode, err)
 			}
 			if !bytes.Equal(got, fc.Data[:wantPrefix]) {
@@ -138,6 +138,13 @@ func TestC12_P_FileFaults(t *testing.T) {
 					kind = "ioerr"
 				}
 				check(fmt.Sprintf("block #%d (%s) unavailable (%s)", i+1, pos, kind), firstStart[c], pos+"/"+kind, pos == "interior-node" || pos == "middle-leaf")
+				if io_ {
+					// ... and with a bare well-known error value, as a thin storage adapter passes it through (io.EOF above all:
+					// to a reader that is the regular end of a stream)
+					fc.St.MissingBare = bareFaults[(i+len(blocks))%len(bareFaults)]
+					check(fmt.Sprintf("block #%d (%s) unavailable (bare %v)", i+1, pos, fc.St.MissingBare), firstStart[c], pos+"/bare", pos == "interior-node" || pos == "middle-leaf")
+					fc.St.MissingBare = nil
+				}
 			}
 		}
 		// (2) a drawn subset of 2..5 blocks
